@@ -443,6 +443,41 @@ def cfg_for(rng):
     return rng.choice([{}, {'width': 20}, {'width': 1, 'indent': 2}, {'width': 40, 'ribbon_width': 10, 'indent': 8}, {'width': rng.randint(1, 200), 'ribbon_width': rng.randint(1, 200), 'indent': rng.randint(1, 8)}])
 
 
+def late_install_child(arg):
+    """in a forked child: the extras are installed only AFTER an instance of the class has been printed (with the predicate registry emptied the
+    package is in the state it has before install_extras): returns (text before, text after)"""
+    spec, kwargs_list, cfg = arg
+    M.install_warning_recorder()
+    del M.ppm._PREDICATE_REGISTRY[:]
+    cls = make_dc(spec) if spec['lib'] == 'dc' else make_attrs(spec)
+    out = []
+    insts = [cls(**kw) for kw in kwargs_list]
+    before = [M.pp(x, **cfg)[0] for x in insts[:1]]
+    prettyprinter.install_extras(['dataclasses', 'attrs'])
+    after = [M.pp(x, **cfg)[0] for x in insts]
+    return before, after
+
+
+def late_install(sh, spec, cls, cases, cfg, origin=None):
+    from ..runner import fork_call
+    kwargs_list = [kw for _, kw, _ in cases][:4]
+    try:
+        want = [M.pp(cls(**kw), **cfg)[0] for kw in kwargs_list]
+    except Exception:
+        return
+    status, res = fork_call(late_install_child, (spec, kwargs_list, cfg), timeout=120)
+    if status != 'ok':
+        sh.inconclusive.append('late-install child: %s %s' % (status, str(res)[:200]))
+        return
+    before, after = res
+    case = {'spec': spec, 'kwargs': [{k: repr(v) for k, v in kw.items()} for kw in kwargs_list], 'cfg': cfg, 'late_install': origin or True}
+    if after != want:
+        sh.violation('printed-before-install-differs-afterwards:' + spec['lib'], 'an instance printed once before install_extras() is printed as %r after the installation, '
+                     'a process with the extras installed from the start prints %r' % ([a for a, w in zip(after, want) if a != w][0][:200], [w for a, w in zip(after, want) if a != w][0][:200]), case)
+    else:
+        sh.counters['classes first printed before install_extras, verified afterwards'] += 1
+
+
 def run_shard(sh):
     M.install_warning_recorder()
     M.install_string_contracts()
@@ -473,10 +508,13 @@ def run_shard(sh):
             sh.counters['class definitions rejected by the library'] += 1
             continue
         sh.counters['class definitions (%s)' % lib] += 1
-        for inst, kwargs, visible in instances(spec, cls, rng, quick):
+        cases = list(instances(spec, cls, rng, quick))
+        for inst, kwargs, visible in cases:
             cfg = cfg_for(rng)
             check_instance(sh, spec, cls, inst, kwargs, visible, cfg)
             sh.case((repr(spec), repr(sorted(kwargs.items(), key=repr)), sorted(cfg.items())), nontrivial=bool(spec['fields']))
+        if i % 5 == 0 and cases:
+            late_install(sh, spec, cls, cases, cfg_for(rng), {'i': i, 'seed': sh.seed, 'quick': quick})
         if i % 150 == 0:
             sh.sample({'class': spec})
 
@@ -501,6 +539,17 @@ def replay(wit):
         text = check_call(sh, h, c['cfg'], c)
         print('call   :', holder_desc(h))
         print('output :', text)
+    elif isinstance(c.get('late_install'), dict):
+        o = c['late_install']
+        rng = V.rng_for('c17b', o['seed'], o['i'])
+        lib = 'dc' if o['i'] % 2 == 0 else 'attrs'
+        spec = gen_spec(rng, lib, o['i'])
+        cls = make_dc(spec) if lib == 'dc' else make_attrs(spec)
+        cases = list(instances(spec, cls, rng, o['quick']))
+        for _ in cases:
+            cfg_for(rng)
+        late_install(sh, spec, cls, cases, c['cfg'])
+        print('class', spec['name'], 'first printed before install_extras(), then after it')
     else:
         spec = c['spec']
         spec['fields'] = [tuple(f) for f in spec['fields']]
